@@ -10,7 +10,7 @@
    different size; KeyError when only the left object has a `gradient` attribute attached; "equal" for a
    default 1-d geometry against a StepExpansion / user Continuous1D subclass on the same grid) -- all
    only under q_today. *)
-From CV Require Import Base.Tac Base.LinAlg Base.QcLin Base.Cmp Model.C12_Model Proofs.C12_Model.
+From CV Require Import Base.Tac Base.LinAlg Base.QcLin Base.Cmp Model.C12_Model Proofs.C12_Model Proofs.C12_Chain.
 From Coq Require Import QArith Qcanon.
 
 (* Parameter vector, function values flagged as such, CUQIarray carrying the domain geometry as parameters
@@ -204,3 +204,87 @@ Example C12_example :
   check_out (gradient q_today (GAdjMat 3 w5_A) (g_default1d 2) ex_dg (GiVec w5_d) (GiArr ex_dg true w5_w) true true)
             (ObsVal 1 [[2#1; 2#1; -6#1]]) = true.
 Proof. exact example_nonvacuous. Qed.
+
+(* ---------------------------------------------------------------------------------------------------
+   Deepening round: the Jacobian laws are PROVED for the polynomial model family F(x) = A phi_F(x) + b and
+   element-wise geometry maps phi_G that the correspondence runs, so the chain rule needs no assumed law.
+   --------------------------------------------------------------------------------------------------- *)
+
+(* pderiv (computed by the model, not handed over by the harness) is the derivative: exact Taylor form *)
+Theorem C12_pderiv_is_derivative : forall cs x h,
+  exists r, peval cs (x + h) = peval cs x + h * peval (pderiv cs) x + h * h * r.
+Proof. exact pderiv_taylor. Qed.
+Print Assumptions C12_pderiv_is_derivative.
+
+(* the direction-Jacobian product written by a user, phi'(w) * (A^T d), is the transposed Jacobian
+   A diag(phi'(w)) applied to d (all sizes) *)
+Theorem C12_gradient_callable_is_transposed_jacobian : forall n A dcs d w,
+  wf_mat n A -> length w = n -> poly_dir n A dcs d w = qmattvec n (poly_jac A dcs w) d.
+Proof. exact poly_dir_is_transposed_jacobian. Qed.
+Print Assumptions C12_gradient_callable_is_transposed_jacobian.
+
+(* par2out_jac A csF csG p = A diag(phi_F'(phi_G p)) diag(phi_G'(p)) IS the Jacobian of the
+   parameter-to-output map p |-> A phi_F(phi_G(p)) + b: first-order expansion with a quadratic remainder *)
+Theorem C12_par2out_jacobian_law : forall n A csF csG b p h,
+  wf_mat n A -> length p = n -> length h = n ->
+  exists r, length r = n /\
+    poly_forward A csF b (pmap csG (qvadd p h)) =
+    qvadd (qvadd (qvadd (qmatvec A (pmap csF (pmap csG p))) (qmatvec (par2out_jac A csF csG p) h))
+                 (qmatvec A (vmul (vmul h h) r))) b.
+Proof. exact par2out_jacobian_law. Qed.
+Print Assumptions C12_par2out_jacobian_law.
+
+(* FULL chain rule (no assumed law): for every model of the polynomial family given by Jacobian, by
+   direction-Jacobian product or as a PDE model (either attribute), every element-wise domain geometry with
+   its `gradient`, every plain 1-d range geometry, all sizes: gradient = (Jacobian of the parameter-to-output
+   map at wrt)^T direction *)
+Theorem C12_gradient_chain_full : forall q gf rg dg n A csF csG gsel d w,
+  poly_gfun gf n A csF -> elementwise_geo dg csG gsel -> plain1d (g_cls rg) = true ->
+  wf_mat n A -> length w = n -> length d = length A ->
+  gradient q gf rg dg (GiVec d) (GiVec w) true true =
+  Ok (OutVec (qmattvec n (par2out_jac A csF csG w) d) false).
+Proof. exact gradient_chain_poly. Qed.
+Print Assumptions C12_gradient_chain_full.
+
+(* the direction given as a CUQIarray carrying the range geometry (as parameters or function values, either
+   flag), or as plain function values, gives the values of the plain parameter direction; together with
+   C12_gradient_wrt_representations_agree the chain rule extends to these representations.  Guard: the
+   geometry comparison range == domain does not misbehave (void in the repaired state). *)
+Theorem C12_gradient_direction_representations_agree : forall q gf rg dg d (ap dflag : bool) w,
+  has_gradient_func gf = true -> plain1d (g_cls rg) = true ->
+  (has_grad dg = true \/ identity_class (g_cls dg) = true) ->
+  eq_confused q rg dg = false ->
+  out_values (gradient q gf rg dg (GiArr rg ap d) (GiVec w) dflag true) =
+    out_values (gradient q gf rg dg (GiVec d) (GiVec w) true true) /\
+  gradient q gf rg dg (GiVec d) (GiVec w) false true = gradient q gf rg dg (GiVec d) (GiVec w) true true.
+Proof. exact gradient_direction_forms_agree. Qed.
+Print Assumptions C12_gradient_direction_representations_agree.
+
+(* an instance of a user subclass of CUQIarray carrying the domain geometry: like a CUQIarray, once the
+   re-wrapping decision is made by isinstance (q_typeis = false) *)
+Theorem C12_subclass_input_agrees : forall q F rg dg g ap v flag,
+  q_typeis q = false -> forward q F rg dg (InSub g ap v) flag = forward q F rg dg (InArr g ap v) flag.
+Proof. exact forward_subclass_agrees. Qed.
+Print Assumptions C12_subclass_input_agrees.
+
+(* today (`type(x) is CUQIarray`): right numbers [2; 7/2], but a subclass instance labelled is_par=False with the
+   DOMAIN geometry where a CUQIarray input gives CUQIarray(is_par=True, range geometry) *)
+Theorem C12_subclass_input_refuted :
+  q_typeis q_today = true /\
+  check_out (forward q_today w7_F w7_rg w7_dg (InArr w7_dg true (zq [1;2;3]%Z)) true) (ObsVal 1 [[2#1; 7#2]]) = true /\
+  check_out (forward q_today w7_F w7_rg w7_dg (InSub w7_dg true (zq [1;2;3]%Z)) true) (ObsVal 7 [[2#1; 7#2]]) = true /\
+  match forward q_today w7_F w7_rg w7_dg (InSub w7_dg true (zq [1;2;3]%Z)) true with
+  | Ok (OutSub g ip _ _) => fields_eqb g w7_dg && negb ip | _ => false end = true.
+Proof. exact witness_subclass. Qed.
+Print Assumptions C12_subclass_input_refuted.
+
+(* non-vacuity of C12_gradient_chain_full: MappedGeometry f = 2p+1 with gradient, F(f) = A f^2 *)
+Example C12_chain_example :
+  elementwise_geo (g_mapped 3 [1;2]%Z F2NoImap (Some (GGDiag (pderiv (zq [1;2]%Z)) SelWrtDir))) (zq [1;2]%Z) SelWrtDir /\
+  poly_gfun (GDir (poly_dir 3 w5_A (pderiv (zq [0;0;1]%Z))) false SelWrtDir) 3 w5_A (zq [0;0;1]%Z) /\
+  wf_mat 3 w5_A /\
+  qcl_eqb (qmattvec 3 (par2out_jac w5_A (zq [0;0;1]%Z) (zq [1;2]%Z) w5_w) w5_d) (zq [12;20;-84]%Z) = true.
+Proof.
+  split; [repeat split|]. split; [right; left; exists SelWrtDir; reflexivity|].
+  split; [repeat constructor | vm_compute; reflexivity].
+Qed.
